@@ -244,3 +244,20 @@ def enclosing_try_handlers(cfg, node):
         return []
     t = tries[-1]
     return [h for h in except_nodes(cfg) if h.ast in t.handlers]
+
+
+def expand_alias(func, cfg_node, expr_src, depth=2):
+    """Rewrite the leading local of `a.b.c` through its single reaching definition when that is a plain copy of an
+    attribute chain (`root = self.root` … `root.flag = True` ≡ `self.root.flag = True`)."""
+    head, _, rest = expr_src.partition('.')
+    if not head.isidentifier() or head == 'self' or depth <= 0:
+        return expr_src
+    g = func.cfg()
+    defs = Q.reaching_defs(g, cfg_node, head)
+    if len(defs) != 1 or defs[0].kind != 'stmt' or not isinstance(defs[0].ast, ast.Assign) or len(defs[0].ast.targets) != 1:
+        return expr_src
+    v = defs[0].ast.value
+    if dotted(v) is None:
+        return expr_src
+    new = src(v) + ('.' + rest if rest else '')
+    return expand_alias(func, defs[0], new, depth - 1)
